@@ -278,7 +278,7 @@ def e2e_cases(tier, seed):
         name, b = srcs[0] if i < cli_model.NFLAGS + 5 else r.choice(srcs)
         pres = r.choice(cli_model.PRESERVE_SPELLINGS)[0]
         cases.append({'name': name, 'src_b64': base64.b64encode(b).decode(), 'flags': flags, 'preserve': pres, 'mode': MODES[i % len(MODES)],
-                      'want_sample': i % 37 == 0})
+                      'want_sample': i % 37 == 0, 'timeout': 100})
     return cases
 
 
@@ -286,7 +286,7 @@ def main(tier, seed):
     run = runner.Run(PROP, tier, seed)
     total = 1 << cli_model.NFLAGS
     step = total // 64
-    lat = [{'lo': lo, 'hi': min(total, lo + step), 'tier': tier} for lo in range(0, total, step)]
+    lat = [{'lo': lo, 'hi': min(total, lo + step), 'tier': tier, 'timeout': 590} for lo in range(0, total, step)]
 
     def on_l(c, r):
         run.add({'layer': 'lattice', 'lo': c['lo'], 'hi': c['hi']}, r)
